@@ -7,7 +7,7 @@ From TL Require Import Lib.Base Lib.GenTypes Gen.MagicGen Model.MagicNum Model.M
 Arguments py_const_name : simpl never.
 Arguments def_const_name : simpl never.
 Arguments doc_upper_name : simpl never.
-Arguments has_lower : simpl never.
+Arguments spec_upper_name : simpl never.
 Arguments norm : simpl never.
 Arguments digits_val : simpl never.
 Arguments exp_val : simpl never.
@@ -53,7 +53,7 @@ Section Lit.
 
   (* the exemption the analyzer computes for a numeric literal = the documented one *)
   Lemma py_ctx_exempt k c name l v line :
-    ctx_ok MPy k c = true -> name_ok c name = true -> lit_is_numeric l = true -> py_const l = Some v ->
+    ctx_ok MPy k c = true -> name_ok MPy c name = true -> lit_is_numeric l = true -> py_const l = Some v ->
     (negb (q_py_upper_neg_flagged q) || negb (match c with CUpperNeg => true | _ => false end)) = true ->
     (negb (q_py_upper_ann_flagged q) || negb (match c with CUpperAnn => true | _ => false end)) = true ->
     (negb (q_py_upper_tuple_flagged q) || negb (match c with CUpperTuple => true | _ => false end)) = true ->
@@ -72,11 +72,11 @@ Section Lit.
     destruct l as [r gs up sfx | ip fp ex sfx | b | st | st]; try discriminate; cbn [py_const] in Hv; inversion Hv; subst v; clear Hv;
       destruct c; cbn [ctx_is_const_def] in Hn; try (cbn in Hc; discriminate);
       try (apply andb_prop in Hn; destruct Hn as [Hn Hne]; apply andb_prop in Hn; destruct Hn as [Hn Hnr];
-           apply negb_true_iff in Hne; apply negb_true_iff in Hnr);
+           apply negb_true_iff in Hne; apply negb_true_iff in Hnr; apply negb_true_iff in Hn);
       cbn [py_ctx_chain app py_is_const_def parent_is_call lit_is_str spec_usage_exempt lit_is_int lit_int_value ctx_is_const_def
            val_isinstance val_types existsb smem val_int cmp_z upper_target negb andb orb];
       cbn;
-      try rewrite (upper_py_const name Hn); try rewrite (lower_py_const name Hn);
+      rewrite ?py_const_spec; try rewrite Hn;
       try rewrite Hnr; try rewrite Hne;
       try (destruct (q_py_upper_neg_flagged q); [discriminate G1|]);
       try (destruct (q_py_upper_ann_flagged q); [discriminate G2|]);
@@ -98,7 +98,7 @@ Proof. reflexivity. Qed.
 
 Lemma site_good_parts lg k s :
   site_good lg k s = true ->
-  ctx_ok lg k (s_ctx s) = true /\ name_ok (s_ctx s) (s_name s) = true
+  ctx_ok lg k (s_ctx s) = true /\ name_ok lg (s_ctx s) (s_name s) = true
   /\ match s_lits s with [] => false | [_] => true | _ => negb (single_lit_ctx (s_ctx s)) end = true
   /\ forallb (lit_ok lg) (s_lits s) = true.
 Proof.
@@ -158,7 +158,7 @@ Proof. induction l as [|x xs IH]; intros H; [reflexivity|]. cbn [existsb]. rewri
 
 Definition spec_upper_site (k : skind) (s : site) : nat :=
   match k with
-  | STop => match s_ctx s, s_lits s with CUpper, [l] => b2n (lit_is_numeric l) | _, _ => 0 end
+  | STop => match s_ctx s, s_lits s with CUpper, [l] => b2n (lit_is_numeric l && doc_upper_name (s_name s)) | _, _ => 0 end
   | _ => 0
   end.
 
@@ -188,19 +188,19 @@ Proof.
   destruct c; try (rewrite OTHER by exact I; reflexivity).
   - (* CAssign at module level: a lower-case name is not counted *)
     destruct lits as [|l [|l2 r]]; try discriminate. unfold name_ok in Hnm. cbn [ctx_is_const_def] in Hnm.
-    apply andb_prop in Hnm. destruct Hnm as [Hnm _]. apply andb_prop in Hnm. destruct Hnm as [Hnm _].
+    apply andb_prop in Hnm. destruct Hnm as [Hnm _]. apply andb_prop in Hnm. destruct Hnm as [Hnm _]. apply negb_true_iff in Hnm.
     unfold to_py_site. cbn [s_lits s_ctx s_name s_line flat_map]. rewrite app_nil_r.
     destruct (py_const l) as [v|]; [|reflexivity]. cbn [map sum_nat fold_right py_ctx_chain py_scope_chain app def_upper_count_site p_anc p_val].
     destruct (val_is v def_numeric_types (excl (q_py_bool_is_number q) def_numeric_excluded)); [|reflexivity].
-    cbn [filter]. rewrite (lower_def_const name Hnm). reflexivity.
+    cbn [filter]. rewrite (spec_not_upper_def name Hnm). reflexivity.
   - (* CUpper at module level *)
     destruct lits as [|l [|l2 r]]; try discriminate. unfold name_ok in Hnm. cbn [ctx_is_const_def] in Hnm.
     unfold to_py_site. cbn [s_lits s_ctx s_name s_line flat_map]. rewrite app_nil_r.
     destruct l as [r gs up sfx | ip fp ex sfx | b | st | st]; cbn [py_const lit_is_numeric b2n map sum_nat fold_right]; try reflexivity.
     + cbn [py_ctx_chain py_scope_chain app def_upper_count_site p_anc p_val]. rewrite EX. replace def_numeric_types with ["int"; "float"] by reflexivity.
-      cbn. rewrite (upper_def_const name Hnm). reflexivity.
+      cbn. rewrite def_const_doc. destruct (doc_upper_name name); reflexivity.
     + cbn [py_ctx_chain py_scope_chain app def_upper_count_site p_anc p_val]. rewrite EX. replace def_numeric_types with ["int"; "float"] by reflexivity.
-      cbn. rewrite (upper_def_const name Hnm). reflexivity.
+      cbn. rewrite def_const_doc. destruct (doc_upper_name name); reflexivity.
     + cbn [py_ctx_chain py_scope_chain app def_upper_count_site p_anc p_val]. rewrite EX. reflexivity.
 Qed.
 
@@ -253,7 +253,7 @@ Proof.
     { apply map_ext_in. intros s Hs. apply count_site. apply Hsites. exact Hs. }
     rewrite E. clear. unfold spec_upper_site. destruct (sc_kind sc); try (apply sum_zero; reflexivity).
     induction (sc_sites sc) as [|s r IH]; [reflexivity|]. cbn [map filter]. unfold sum_nat in *. cbn [fold_right]. rewrite IH.
-    destruct (s_ctx s); try reflexivity. destruct (s_lits s) as [|l [|l2 r2]]; try reflexivity. destruct (lit_is_numeric l); reflexivity.
+    destruct (s_ctx s); try reflexivity. destruct (s_lits s) as [|l [|l2 r2]]; try reflexivity. destruct (lit_is_numeric l && doc_upper_name (s_name s)); reflexivity.
   - unfold to_py, spec_has_int_dict. rewrite existsb_flat_map. apply existsb_ext_in. intros sc Hsc.
     rewrite existsb_map. apply existsb_ext_in. intros s Hs. apply dict_site.
 Qed.
